@@ -61,7 +61,10 @@ class Gen:
             shape = rng.choice(LEAF_SHAPES)
         name = self.fresh()
         vals = [_val(rng) for _ in range(numel(shape))]
-        self.spec["leaves"].append({"name": name, "shape": list(shape), "rg": bool(rg), "vals": vals})
+        leaf = {"name": name, "shape": list(shape), "rg": bool(rg), "vals": vals}
+        if len(shape) >= 2 and rng.random() < 0.2:
+            leaf["layout"] = "t"
+        self.spec["leaves"].append(leaf)
         self.shape[name] = tuple(shape)
         self.anc[name] = {name}
         self.producer[name] = "leaf"
